@@ -1,4 +1,4 @@
-import BiotiteModel.Proofs.C18Header
+import BiotiteModel.Proofs.C18File
 import BiotiteModel.Gen.C18
 /-!
 # C18 — property theorems (MOL/SDF files; tables of the RDKit bridge)
@@ -379,6 +379,31 @@ theorem C18_header_truncation_defect :
       = .ok ⟨"a".toList, [], [], none, [], [], [], [], "c".toList⟩ := by
   decide
 
+/-! ## Whole records and files -/
+
+/-- **One SD record.**  A record with a valid header, a well-formed non-empty molecule and valid
+metadata with pairwise different keys (`RecOk`), written with any version argument, is split
+again into exactly its three header lines, its CTAB (up to the first `M  END` after the header —
+even if the molecule name itself starts with `M  END`) and its metadata lines, and each part reads
+back as what was written: the header field by field, the molecule as in `C18_ctab_roundtrip`, the
+metadata with keys, multi-line values and order. -/
+theorem C18_sdf_record_roundtrip (r : SDRec) (d : Nat) (v : Version) (ls : List Line) (hr : RecOk r)
+    (h : r.serialize d v = .ok ls) :
+    ∃ dc, codeOfBond d = some dc ∧ SDRec.deserialize ls = .ok ⟨r.header, r.mol.rt dc, r.md⟩ := by
+  obtain ⟨dc, _, hdc, _, _, hde⟩ := sdrec_roundtrip r d v ls hr h
+  exact ⟨dc, hdc, hde⟩
+
+/-- **A whole SD file.**  A non-empty list of records with pairwise different molecule names, each
+`RecOk` and without a header or metadata-value line that starts with `$$$$` (`NoDelim`; CTAB and
+key lines never do), serialised with `$$$$` delimiters and read again, gives the same records in
+the same order, each under its molecule name, with header, molecule and metadata as written. -/
+theorem C18_sdf_file_roundtrip (rs : List SDRec) (d : Nat) (v : Version) (ls : List Line) (hne : rs ≠ [])
+    (hok : ∀ r ∈ rs, RecOk r ∧ NoDelim r) (hnames : (rs.map (·.header.molName)).Nodup)
+    (h : sdfSerialize rs d v = .ok ls) :
+    ∃ dc, codeOfBond d = some dc ∧
+      sdfDeserialize ls = .ok (rs.map fun r => (r.header.molName, ⟨r.header, r.mol.rt dc, r.md⟩)) :=
+  sdf_file_roundtrip rs d v ls hne hok hnames h
+
 /-! ## Non-vacuity and concrete round trips (evaluated by the kernel)
 
 The examples below show that the hypotheses of the theorems above (`WFMol`, `FitsV2000`,
@@ -415,7 +440,7 @@ example : splitRecords (joinRecords [["a".toList, "x".toList], [" b ".toList]])
 
 def exMd : Metadata :=
   [(⟨none, some "k".toList, none, none⟩, ["l1".toList, "l 2 <x>".toList]), (⟨some 3, none, some 7, some []⟩, ["v".toList])]
-example : MdOk exMd ∧ (exMd.map (·.1)).Nodup := by
+theorem exMd_ok : MdOk exMd ∧ (exMd.map (·.1)).Nodup := by
   refine ⟨?_, by decide⟩
   intro kv hkv
   simp only [exMd, List.mem_cons, List.mem_nil_iff, or_false] at hkv
@@ -439,5 +464,22 @@ def exHeader : Header :=
 example : ValidHeader exHeader := by decide
 example : exHeader.serialize.toOption.map (·.map String.ofList) =
     some ["M  END of (+)-x", "ABprog 1.002292423593D 1   1.00000       -12.5123456", "a comment, with blanks"] := by decide
+
+theorem exMol_wf : WFMol exMol ∧ exMol.atoms ≠ [] := by
+  refine ⟨⟨?_, ?_, ?_⟩, ?_⟩ <;> decide
+
+def exRecs : List SDRec :=
+  [⟨exHeader, exMol, exMd⟩, ⟨{ exHeader with molName := "second".toList, time := none }, exMol, []⟩]
+
+example : exRecs ≠ [] ∧ (∀ r ∈ exRecs, RecOk r ∧ NoDelim r) ∧ (exRecs.map (·.header.molName)).Nodup := by
+  refine ⟨by decide, ?_, by decide⟩
+  intro r hr
+  simp only [exRecs, List.mem_cons, List.mem_nil_iff, or_false] at hr
+  rcases hr with rfl | rfl
+  · exact ⟨⟨by decide, exMol_wf.1, exMol_wf.2, exMd_ok.1, exMd_ok.2⟩, by unfold NoDelim; decide⟩
+  · exact ⟨⟨by decide, exMol_wf.1, exMol_wf.2, by intro kv h; simp at h, by decide⟩, by unfold NoDelim; decide⟩
+example : ((sdfSerialize exRecs 0 .auto).toOption.map (·.length)) = some 31 := by decide
+example : (sdfSerialize exRecs 0 .v3000).bind sdfDeserialize
+    = .ok (exRecs.map fun r => (r.header.molName, ⟨r.header, r.mol.rt 8, r.md⟩)) := by decide
 
 end BiotiteModel.C18
